@@ -35,6 +35,7 @@ class Cfg(object):
         self.punct_words = PUNCT_WORDS
         self.root_label = "VROOT"
         self.wrap_all = False     # root has exactly one constituent child spanning everything
+        self.large = True         # occasionally 13..45 tokens
         self.__dict__.update(kw)
 
 
@@ -44,8 +45,13 @@ def _leftmost(node):
 
 def gen_tree(rng, cfg=None, n=None):
     cfg = cfg or Cfg()
+    wide = 0
     if n is None:
         n = rng.randint(cfg.n_min, cfg.n_max)
+        # now and then a long sentence: token numbers of two digits, many siblings, deep nesting
+        if cfg.large and cfg.n_max >= 6 and rng.random() < 0.03:
+            n = rng.randint(13, 45)
+            wide = rng.choice([0, 0, 9, 13])
     items = []
     for i in range(1, n + 1):
         if rng.random() < cfg.p_punct:
@@ -79,7 +85,7 @@ def gen_tree(rng, cfg=None, n=None):
     guard = 0
     while len(items) > target and guard < 200:
         guard += 1
-        k = rng.randint(2, min(cfg.max_arity, len(items)))
+        k = rng.randint(2, min(max(cfg.max_arity, wide), len(items)))
         items.sort(key=_leftmost)
         if cfg.disc and rng.random() < cfg.p_disc:
             idx = sorted(rng.sample(range(len(items)), k))
